@@ -399,10 +399,36 @@ type c15nCase struct {
 	Hole    int    `json:"hole,omitempty"`
 	MaxHold int    `json:"max_hold"`
 	Fault   int    `json:"storage_fault_per_mille"`
+	Reload  string `json:"prefix_hot_reload,omitempty"` // "", before-preseed, after-preseed
 	Sub     int64  `json:"subseed"`
 }
 
 func c15nSlot(i int) string { return fmt.Sprintf("node-%04d", i) }
+
+// c15nHotReload: ordinary runtime configuration update on hybrid stores through the
+// public UpdatePersistentPrefixes (same list on even nodes, extended on odd ones); node
+// leases must keep being arbitrated in the shared tier afterwards.
+func c15nHotReload(stores []storage.Storage) int {
+	n := 0
+	seen := map[any]bool{}
+	for i, st := range stores {
+		h, ok := st.(interface {
+			UpdatePersistentPrefixes([]string)
+			GetConfig() *storage.HybridConfig
+		})
+		if !ok || seen[st] {
+			continue
+		}
+		seen[st] = true
+		list := append([]string(nil), h.GetConfig().PersistentPrefixes...)
+		if i%2 == 1 {
+			list = append(list, "tunnox:persist:verif-extra:")
+		}
+		h.UpdatePersistentPrefixes(list)
+		n++
+	}
+	return n
+}
 
 func c15nRunCase(t *testing.T, run *vk.Run, cs c15nCase, fam *c15nStats) bool {
 	rf := &c15nRedisFault{r: mrand.New(mrand.NewSource(cs.Sub ^ 0x4ed15))}
@@ -435,6 +461,9 @@ func c15nRunCase(t *testing.T, run *vk.Run, cs c15nCase, fam *c15nStats) bool {
 			occ = append(occ, i)
 		}
 	}
+	if cs.Reload == "before-preseed" {
+		run.Count("prefix_hot_reloads", int64(c15nHotReload(cl.stores)))
+	}
 	earlier := NewNodeIDAllocator(cl.stores[cs.N-1])
 	for _, i := range occ {
 		id := c15nSlot(i)
@@ -447,6 +476,9 @@ func c15nRunCase(t *testing.T, run *vk.Run, cs c15nCase, fam *c15nStats) bool {
 		seeded[id] = true
 	}
 	run.Count("preoccupied_slots", int64(len(occ)))
+	if cs.Reload == "after-preseed" {
+		run.Count("prefix_hot_reloads", int64(c15nHotReload(cl.stores)))
+	}
 	var injected atomic.Int64
 	cl.setHook(c15nYieldHook(mrand.New(mrand.NewSource(cs.Sub^0x1e1d)), cs.Fault, &injected))
 	rf.perMille.Store(int64(cs.Fault)) // armed only after the slots above were pre-occupied
@@ -626,6 +658,9 @@ func TestVerifC15NodeAlloc(t *testing.T) {
 						cs.Rounds = 4
 					}
 				}
+				if strings.HasPrefix(be, "hybrid") && rep%2 == 0 {
+					cs.Reload = []string{"before-preseed", "after-preseed"}[(caseNo/2)%2]
+				}
 				if rep%2 == 1 {
 					cs.Fault = []int{2, 8, 25}[r.Intn(3)]
 				}
@@ -654,6 +689,7 @@ func TestVerifC15NodeAlloc(t *testing.T) {
 	run.Floor("release_ok", 50)
 	run.Floor("faults_injected", 200)
 	run.Floor("release_after_failed_allocate", 20)
+	run.Floor("prefix_hot_reloads", 10)
 	run.Floor("redis_setnx_failed_before_apply", 20)
 	run.Floor("redis_setnx_reply_lost_after_apply", 20)
 }
